@@ -42,8 +42,10 @@ def call_np(interp, name, args, kwargs, lineno):
             return Box(snap(x))
         raise AnalysisError(f"np.{name} of {x!r}")
     if name == 'copy':
+        if isinstance(args[0], Box) and A.is_flatvec(args[0]):
+            return A._clone_vec(args[0])
         a = snap(args[0])
-        return Box(Arr(a.shape, a.fn, a.kind, tag=a.tag, origin=lineno, segs=a.segs, affine=a.affine))
+        return Box(Arr(a.shape, a.fn, a.kind, tag=a.tag, origin=lineno, segs=a.segs, affine=a.affine, label=a.label if A.is_flatvec(a) else None))
     if name == 'hstack':
         pieces = args[0]
         if not isinstance(pieces, (list, tuple)):
@@ -197,7 +199,9 @@ def call_method(interp, obj, name, args, kwargs, lineno):
         if name in ('ravel', 'flatten'):
             return Box(A.ravel_arr(ctx, a))
         if name == 'copy':
-            return Box(Arr(a.shape, a.fn, a.kind, tag=a.tag, origin=lineno, segs=a.segs, affine=a.affine))
+            if isinstance(obj, Box) and A.is_flatvec(obj):
+                return A._clone_vec(obj)
+            return Box(Arr(a.shape, a.fn, a.kind, tag=a.tag, origin=lineno, segs=a.segs, affine=a.affine, label=a.label if A.is_flatvec(a) else None))
         if name == 'item':
             sz = a.size()
             if not (sz.is_const() and sz.const_value() == 1):
@@ -257,6 +261,8 @@ def call_builtin(interp, name, args, kwargs, lineno, fr):
     if name == 'isinstance':
         x, c = args
         return _issub(sm, type_of(x), c)
+    if name == 'noop':
+        return None
     if name in ('print', 'warn', 'use_solver'):
         if name == 'warn':
             interp.events.append(('warn', interp.cur_file, lineno))
@@ -320,7 +326,10 @@ def call_builtin(interp, name, args, kwargs, lineno, fr):
     if name == 'csr_array':
         return csr_array(interp, args, kwargs, lineno)
     if name == 'spsolve':
-        raise AnalysisError("spsolve is not evaluated by the stencil interpreter")
+        hook = getattr(interp, 'solver_hook', None)
+        if hook is None:
+            raise AnalysisError("spsolve is not evaluated by the stencil interpreter")
+        return hook('spsolve', args, kwargs)
     if name in ('tuple', 'list'):
         x = args[0] if args else ()
         if isinstance(x, (tuple, list)):
